@@ -317,6 +317,26 @@ pub fn contexts(tier: Tier) -> Vec<Ctx> {
         ] {
             out.push(r_is(format!("{cn}"), e, u8t.clone()));
         }
+        // blocks, branches, arms and bodies whose ONLY statement is a shadowing binding
+        {
+            let after = || vec![assign("n", vec![], bin(BinOp::BitXor, n(), u8l(1))), assign("m", vec![], bin(BinOp::BitXor, m(), n()))];
+            let mut add = |name: &str, first: Stmt| {
+                let mut stmts = vec![first];
+                stmts.extend(after());
+                out.push(Ctx { name: name.to_string(), stmts, r: None });
+            };
+            add("{let n=77}", expr_stmt(block(vec![let_("n", u8l(77))])));
+            add("{let mut n=77}", expr_stmt(block(vec![let_mut("n", u8l(77))])));
+            add("{let (n,m)=(1,2)}", expr_stmt(block(vec![let_pat(Pat::Tup(vec![pvar("n"), pvar("m")]), tup(vec![u8l(1), u8l(2)]))])));
+            add("if b{let n=77}", expr_stmt(if_(var("b"), vec![let_("n", u8l(77))], None)));
+            add("if b{let n=77}else{let m=78}", expr_stmt(if_(var("b"), vec![let_("n", u8l(77))], Some(vec![let_("m", u8l(78))]))));
+            add("if b{n=5}else{let n=78}", expr_stmt(if_(var("b"), vec![assign("n", vec![], u8l(5))], Some(vec![let_mut("n", u8l(78))]))));
+            add("match n{0=>{let m=9},w=>{let n=w}}", expr_stmt(match_(n(), vec![(Pat::Int(0, Some(IntTy::U8)), block(vec![let_("m", u8l(9))])), (pvar("w"), block(vec![let_("n", var("w"))]))])));
+            add("for x in a{let n=x}", for_(pvar("x"), var("a"), vec![let_("n", var("x"))]));
+            add("for x in a{let mut m=x}", for_(pvar("x"), var("a"), vec![let_mut("m", var("x"))]));
+            add("{{let n=1}}", expr_stmt(block(vec![expr_stmt(block(vec![let_("n", u8l(1))]))])));
+            add("{n=3};{let n=4}", expr_stmt(block(vec![expr_stmt(block(vec![assign("n", vec![], u8l(3))])), expr_stmt(block(vec![let_("n", u8l(4))]))])));
+        }
         // zero-width values flowing through bindings, tuples and calls
         out.push(r_is("let u=();(u,n).1".into(), block(vec![let_("u", tup(vec![])), expr_stmt(tupf(tup(vec![var("u"), n()]), 1))]), u8t.clone()));
         out.push(r_is("[n;0] then n".into(), block(vec![let_("z", ex(ExprKind::ArrRep(Box::new(n()), 0))), let_("n", u8l(4)), expr_stmt(bin(BinOp::BitXor, n(), m()))]), u8t.clone()));
